@@ -31,7 +31,8 @@ Inductive wkind :=
 | WRedisReal           (* a Redis client on a real (mini)redis server: same hook *)
 | WSqlExec             (* commonSqlConn.ExecCtx *)
 | WSqlPredicate        (* commonSqlConn.acceptable alone *)
-| WSqlM (m : sqlmeth) (usectx : bool).
+| WSqlM (m : sqlmeth) (usectx : bool)
+| WGrpcServerChain.    (* UnaryBreakerInterceptor around UnaryTimeoutInterceptor around the handler: zrpc's order *)
                        (* the other breaker-wrapped methods of commonSqlConn: the *Ctx variant
                           (usectx) or the one that delegates with context.Background() *)
 
@@ -54,7 +55,10 @@ Inductive derr :=
 | DSqlScanFail           (* the query succeeds, scanning the rows into the destination fails *)
 | DSqlScanDeadline       (* iterating the rows ends with context.DeadlineExceeded *)
 (* %w-wrapped sentinels: the call sites classify with errors.Is / errors.As *)
-| DWrappedDeadline | DWrappedBreakerUnavailable | DWrappedSqlNoRows | DWrappedSqlTxDone.
+| DWrappedDeadline | DWrappedBreakerUnavailable | DWrappedSqlNoRows | DWrappedSqlTxDone
+(* through the chain Breaker(Timeout(handler)): the handler is still running when the timeout fires
+   (UnaryTimeoutInterceptor answers status DeadlineExceeded) / when the client cancels (status Canceled) *)
+| DStallTimeout | DStallCancel.
 
 (* gRPC codes: Canceled 1 Unknown 2 DeadlineExceeded 4 ResourceExhausted 8 Unimplemented 12
    Internal 13 Unavailable 14 DataLoss 15 *)
@@ -66,6 +70,7 @@ Definition grpc_failure_code (c : Z) : bool :=
 Definition codes_acceptable (d : derr) : bool :=
   match d with
   | DStatus c => negb (grpc_failure_code c)
+  | DStallTimeout => false      (* status DeadlineExceeded *)
   | _ => true
   end.
 
@@ -101,7 +106,7 @@ Definition sqlq_acceptable (d : derr) : bool :=
 Definition w_acceptable (k : wkind) (d : derr) : bool :=
   match k with
   | WGrpcClient => codes_acceptable d
-  | WGrpcServerUnary | WGrpcServerStream => server_acceptable d
+  | WGrpcServerUnary | WGrpcServerStream | WGrpcServerChain => server_acceptable d
   | WRedisCmd | WRedisIgnoredCmd | WRedisPipeline | WRedisReal => redis_acceptable d
   | WSqlExec | WSqlPredicate => sql_acceptable d
   | WSqlM m _ => if is_query m then sqlq_acceptable d else sql_acceptable d
@@ -130,9 +135,11 @@ Definition pass_seen (k : wkind) (d : derr) : seen :=
   match d with
   | DNil => SNil
   | DPanic => SPanic
+  | DStallTimeout => SStatus 4
+  | DStallCancel => SStatus 1
   | DBreakerUnavailable | DWrappedBreakerUnavailable =>
     match k with
-    | WGrpcServerUnary | WGrpcServerStream => SStatus 14   (* convertError: errors.Is *)
+    | WGrpcServerUnary | WGrpcServerStream | WGrpcServerChain => SStatus 14   (* convertError: errors.Is *)
     | _ => SSame
     end
   | _ => SSame
@@ -140,7 +147,7 @@ Definition pass_seen (k : wkind) (d : derr) : seen :=
 
 Definition rejected_seen (k : wkind) : seen :=
   match k with
-  | WGrpcServerUnary | WGrpcServerStream => SStatus 14     (* codes.Unavailable *)
+  | WGrpcServerUnary | WGrpcServerStream | WGrpcServerChain => SStatus 14     (* codes.Unavailable *)
   | _ => SBreakerUnavailable
   end.
 
@@ -167,10 +174,71 @@ Definition w_outcome (k : wkind) (d : derr) : outcome :=
 
 (* ------------------------------------------------------------------ REST *)
 
+(* The route's handler seen through the middleware chain the rest engine builds INSIDE the
+   breaker (engine.go: Breaker, Shedding, Timeout, Recover, ... handler).  The handler runs a
+   script of response-writer calls and then returns, panics, or stalls until the request
+   times out / the client goes away.  What BreakerHandler judges is cw.Code of
+   response.WithCodeResponseWriter: the LAST WriteHeader argument that reached it (200 if none). *)
+Inductive hop := HWriteHeader (c : Z) | HWrite | HFlush.
+Inductive hend :=
+| HReturn
+| HPanicEnd
+| HStallTimeout        (* still running when the route's timeout fires *)
+| HStallCancel.        (* still running when the client cancels the request *)
+Inductive hchain :=
+| ChPlain (recover : bool)       (* [RecoverHandler] handler *)
+| ChTimeout (recover : bool).    (* TimeoutHandler [RecoverHandler] handler - the engine's order *)
+
+(* handler.timeoutWriter: the handler's first status wins, body buffered until Flush *)
+Record twst := mkTW { tw_wrote : bool; tw_code : Z; tw_flushed : bool; tw_cw : Z }.
+
+Definition tw_header (t : twst) (c : Z) : twst :=
+  if tw_wrote t then t else mkTW true c (tw_flushed t) (tw_cw t).
+
+Definition tw_op (t : twst) (o : hop) : twst :=
+  match o with
+  | HWriteHeader c => tw_header t c
+  | HWrite => tw_header t 200
+  | HFlush =>
+    let t1 := tw_header t 200 in
+    if tw_flushed t1 then t1
+    else mkTW true (tw_code t1) true (if tw_code t1 =? 200 then tw_cw t1 else tw_code t1)
+  end.
+
+(* the handler returned: TimeoutHandler copies the status unless it is 200 or already flushed *)
+Definition tw_done (t : twst) : Z :=
+  if negb (tw_code t =? 200) && negb (tw_flushed t) then tw_code t else tw_cw t.
+
+(* without TimeoutHandler the script writes to cw itself: the last WriteHeader wins *)
+Definition cw_op (code : Z) (o : hop) : Z :=
+  match o with HWriteHeader c => c | _ => code end.
+
+(* (cw.Code when BreakerHandler's deferred function runs, does the panic reach the breaker?) *)
+Definition script_result (ch : hchain) (ops : list hop) (e : hend) : Z * bool :=
+  match ch with
+  | ChPlain rec =>
+    let code := fold_left cw_op ops 200 in
+    match e with
+    | HPanicEnd => if rec then (500, false) else (code, true)   (* RecoverHandler: WriteHeader(500) *)
+    | _ => (code, false)
+    end
+  | ChTimeout rec =>
+    let t := fold_left tw_op ops (mkTW false 200 false 200) in
+    match e with
+    | HReturn => (tw_done t, false)
+    | HPanicEnd =>
+      if rec then (tw_done (tw_header t 500), false)   (* recovered inside: 500 unless a status was set *)
+      else (tw_cw t, true)                             (* re-raised by TimeoutHandler *)
+    | HStallTimeout => (503, false)     (* a timed-out request IS a 503 - also after a flush *)
+    | HStallCancel => (499, false)      (* client closed request *)
+    end
+  end.
+
 (* what the next handler does with the response *)
 Inductive hout :=
 | HCode (c : Z)                  (* WriteHeader(c) (or nothing written: c = 200), returns *)
-| HPanic (written : option Z).   (* panics, after WriteHeader(c) or before writing anything *)
+| HPanic (written : option Z)    (* panics, after WriteHeader(c) or before writing anything *)
+| HScript (ch : hchain) (ops : list hop) (e : hend).
 
 (* the status code BreakerHandler's deferred function looks at *)
 Definition h_code (h : hout) : Z :=
@@ -178,6 +246,7 @@ Definition h_code (h : hout) : Z :=
   | HCode c => c
   | HPanic (Some c) => c
   | HPanic None => 200
+  | HScript ch ops e => fst (script_result ch ops e)
   end.
 
 (* promise.Accept() iff code < 500 *)
@@ -192,7 +261,12 @@ Record rres := mkRR { rr_invoked : Z; rr_succ : Z; rr_fail : Z; rr_drop : Z; rr_
 Definition rest_wrap (rej : bool) (h : hout) : rres :=
   if rej then mkRR 0 0 0 1 (RSCode 503)
   else mkRR 1 (if rest_accepts h then 1 else 0) (if rest_accepts h then 0 else 1) 0
-            (match h with HCode c => RSCode c | HPanic _ => RSPanic (h_code h) end).
+            (match h with
+             | HCode c => RSCode c
+             | HPanic _ => RSPanic (h_code h)
+             | HScript ch ops e =>      (* what the client receives is not judged for scripts *)
+               if snd (script_result ch ops e) then RSPanic (-2) else RSCode (-2)
+             end).
 
 (* a history of HTTP requests through one BreakerHandler = a history of Allow calls *)
 Record hreq := mkHReq { hq_out : hout; hq_gap : Z; hq_dur : Z; hq_u : Q }.
